@@ -762,7 +762,7 @@ pub fn run(ctx: Ctx) -> ! {
         "distinct_outcome_shapes" => distinct_outcomes.len(),
         "diagnostic_outcome_classes_by_fault_family" => classes,
         "as_is_fixture_outcomes" => as_is_notes,
-        "bases" => bases.iter().map(|b| json!({"label": b.label, "chunk": b.name, "consistent": b.consistent, "fault_families": ["none (read as is)", "index files only", "all"][b.families as usize], "reference_blocks": b.points.len(), "chunk_bytes": b.chunk.len(), "primary_bytes": b.primary.len(), "secondary_bytes": b.secondary.len()})).collect::<Vec<_>>(),
+        "bases" => bases.iter().map(|b| json!({"label": b.label, "chunk": b.name, "consistent": b.consistent, "fault_families": (match b.families { 0 => "none (read as is)", 1 => "index files only", _ => "all" }), "reference_blocks": b.points.len(), "chunk_bytes": b.chunk.len(), "primary_bytes": b.primary.len(), "secondary_bytes": b.secondary.len()})).collect::<Vec<_>>(),
     };
     ctx.finish(
         Level::FaultEnumeration,
